@@ -968,7 +968,12 @@ def plan(pid: str, tier: str, rng: random.Random) -> list[dict]:
                     add(kind="inject", what="pause", at=at, unpause_at=at + 6, spec=spec, name=n, policy="random",
                         cancel_with_unpause=True)
     if pid in ("C11",):
-        mx = {n: fam[n] for n in ("mutex_pair", "choice3", "mutex_suspend", "mutex_fail")}
+        # the members of a choice group hang off DIFFERENT upstreams and the loser's upstream never finishes (it is suspended):
+        # the loser never gets a StartStage of its own - the winner must cancel it
+        fam = dict(fam)
+        fam["choice_split_upstreams"] = {"stages": [S("R"), S("U1", ["R"]), S("U2", ["R"], tasks=[["susp", "ok"]]),
+                                                    S("A", ["U1"], choice="k1"), S("B", ["U2"], choice="k1"), S("Z", ["A"])]}
+        mx = {n: fam[n] for n in ("mutex_pair", "choice3", "mutex_suspend", "mutex_fail", "choice_split_upstreams")}
         schedules(list(mx.items()), ["fifo", "lifo", "random", "redeliver"], 8 if thorough else 3)
         for n, spec in mx.items():
             for st in spec["stages"]:
@@ -1089,6 +1094,7 @@ def monitor(pid: str, out: dict, base: dict | None) -> list[Violation]:
         vs += M.m_c03(out)
     if pid == "C11":
         vs += M.m_c11(out)
+        vs += M.m_c11_losers(out)
     if pid == "C05" and (crashfree or (kind == "inject" and what in ("pause", "signal"))):
         vs += M.m_c05(out)
     if pid == "C01" and kind == "crash" and base is not None:
